@@ -32,7 +32,9 @@ RULE = ("one case = one real tree x one public/non-public assignment. Trees: (p)
         "dotted and malformed names, and random well-typed trees, with typed nil pointers in interface-typed positions and nil / "
         "typed-nil slice elements; (a) queries assembled through the exported API (Parse, SetPredicate, AdoptSortFields, "
         "NewAndExprNode, NewInArrayExprNode + PostProcess, NewInt64BetweenOp, SetSkip, SetLimit; nil, typed-nil and zero-value "
-        "arguments); (u) the untyped tree the parse listener builds. "
+        "arguments; each recipe carries the identifiers it hands to the API, computed from its inputs, which the specification "
+        "counts as referenced, and the sort clause in force, which GetSortFields() must list exactly); (u) the untyped tree the "
+        "parse listener builds. "
         "Assignments: all subsets of the symbols a tree references (up to the tier's cap, else all-public, each "
         "single-non-public and random ones), other symbols random. non-trivial = the tree references at least one symbol; "
         "distinct = (tree, set of referenced non-public symbols)")
@@ -114,6 +116,14 @@ def judge(case, a, s):
         unseen = sorted(set(handed) - set(visited or []))
         if unseen:
             return "GetSortFields() hands out symbol(s) that validation never saw: " + ", ".join(map(_unname, unseen))
+    if tag == "a":
+        toks = case.split(" ")
+        if "G" in toks and toks.index("G") + 1 < len(toks) and api:
+            want = _names(toks[toks.index("G") + 1])
+            got = [] if api[0] == "-" else api[0].split(",")
+            if got != want:
+                return ("GetSortFields() of the assembled query lists [%s], the sort clause in force by construction is [%s]"
+                        % (", ".join(map(_unname, got)), ", ".join(map(_unname, want))))
     if any(t == "gp=0" for t in a.split(" ")):
         return "GetPredicate() does not return the node that Accept walks as the predicate"
     if tag == "u" or not sp["cfg"]:
@@ -182,6 +192,9 @@ def describe(case, impl, model, spec):
         if f[0] == "a":
             t1, t2, ops = (d["query"].split("\x1f") + ["", "", ""])[:3]
             d["recipe"] = {"base": t1, "other": t2, "ops": ops.split(";")}
+            if "X" in f and "G" in f:
+                d["referenced_by_construction"] = [_unname(x) for x in _names(f[f.index("X") + 1])]
+                d["sort_fields_in_force"] = [_unname(x) for x in _names(f[f.index("G") + 1])]
     sp = parse_spec(spec or "")
     if sp:
         d["referenced_symbols"] = [_unname(x) for x in sp["all"]]
